@@ -196,11 +196,13 @@ def writeError (written gone : Bool) (t : Option RespTranscoder) (e : RawErr) : 
 structure Marshaler where
   mime : Bytes
   streams : Bool
+  id : Nat := 0        -- which marshaler value it is (two marshalers may claim the same MIME type)
   deriving DecidableEq, Repr
 
 structure Registry where
   marshalers : List Marshaler      -- the mimeMarshalers map (keys are distinct)
   default : Marshaler
+  deriving DecidableEq, Repr
 
 def Registry.lookup (r : Registry) (mt : Bytes) : Option Marshaler :=
   r.marshalers.find? (fun m => m.mime == mt)
@@ -498,14 +500,17 @@ def serveBound (sc : Scenario) (env : Env) (b : Bound) : Resp :=
   else if sc.rpc == .serverStream && !b.resp.streams then failResp .bridge false (some t) (cannotStreamErr env) []
   else serveForward sc env t b.sse
 
-/-- `TranscodedHTTPBridge.ServeHTTP` on one scenario. -/
-def serve (sc : Scenario) (env : Env) : Resp :=
+/-- `TranscodedHTTPBridge.ServeHTTP` on one scenario, for a transcoder built over the marshaler registry `r`. -/
+def serveWith (r : Registry) (sc : Scenario) (env : Env) : Resp :=
   -- routeTranscodedRequest: router.RouteHTTP
   if sc.inj == .router then failResp .router sc.gone none sc.err []
   -- transcoder.Bind (the harness' wrapper returns the injected error before calling the real Bind)
   else if sc.inj == .bind then failResp .bind sc.gone none sc.err []
-  else match bind registry env.pm sc.accept (sc.rpc == .clientStream) (sc.rpc == .serverStream) with
+  else match bind r env.pm sc.accept (sc.rpc == .clientStream) (sc.rpc == .serverStream) with
   | .error e => failResp .bind false none (natBindErr env e) []
   | .ok b => serveBound sc env b
+
+/-- …with the registry of the e2e harness (JSON + the binary test double). -/
+def serve (sc : Scenario) (env : Env) : Resp := serveWith registry sc env
 
 end GB.C10
